@@ -3,6 +3,10 @@
 import json, subprocess
 GOENV = "GOFLAGS=-mod=mod GOPROXY=off GOSUMDB=off GOTOOLCHAIN=local CGO_ENABLED=1"
 CHECKS = {
+ "C12": dict(engine="E1 + E4 configuration sweep and models", level="exploration", design="DESIGN.md 4/C12",
+   text="generated programs compared across drawn Options vectors against default options; depth/arity-parameterised programs swept across each configured limit with overflow/recover cycles and a post-check in the same state; state-machine histories on both call-frame stacks and the registry (verif hooks) against slice models",
+   note="gopher-lua under default options is the baseline of (a); (b) uses programs with known values; (c) trusts the slice models and the documented capacity rule",
+   technique="property-based metamorphic testing across configurations, boundary sweeps, and stateful model-based testing (rapid)"),
  "C11": dict(engine="E5 cancellation enumeration", level="fault_enumeration", design="DESIGN.md 4/C11",
    text="31 non-terminating and terminating script templates and generated programs are cancelled at every main-thread dispatch poll and inside every tick() host call of a bounded prefix, with fixed and auto-growing call stacks; after cancel() returns no host call may start, DoString must return an error carrying the context's reason within a bounded number of further polls, never a Go panic; blocked channel receive/send/select must wake",
    note="trusts that the VM polls the context once per dispatched instruction; cancellation points of one script are enumerated completely within the stated prefix, the set of scripts is fixed plus generated; the blocked-channel verdict uses goroutine-state sampling with a confirming observation",
